@@ -21,6 +21,7 @@ RULE = (
     "issue multiset must equal the reference groups and be independent of rule and validator order. state = (validator "
     "order, rule order, ops so far). non-trivial = case whose reference issue set is non-empty."
 )
+RULE += (" " + '(A2) one validator instance is fed rules that share a condition text but differ in their detection names, in both orders. Uniqueness groups are also built from verbatim copies; the rules named by an issue are identified by object identity.')
 ASSUMPTIONS = ["reference: unused(d) <=> no condition names d or a selector matching it; dangling(sel) <=> matches nothing; uniqueness groups by value",
                "issue = (class, rule titles sorted, extra fields); order of the issue list is not judged"]
 BOUNDS = {"quick": dict(kfull=1, kred=2, coll=3), "thorough": dict(kfull=2, kred=3, coll=4)}
